@@ -21,7 +21,8 @@
     `unmodelled:NonFiniteBound`  — `bounded` trend transfer with an infinite bound; an infinite bound written into the result;
                                    an infinite threshold used as `floc`/`fscale`;
     `unmodelled:EmptySample`     — `_step5_transfer_trend` on an empty sample;
-    `unmodelled:DrawsLength`     — a `Draws` field whose length is not the size the code requests.
+    `unmodelled:DrawsLength`     — a `Draws` field whose length is not the size the code requests;
+    `unmodelled:MissingValues`   — missing values with `impute_missing_values = False` (NaN would propagate).
   Not modelled at all: `ecdf_method = "kernel_density"` (histogram bins are an oracle of `Model.Stats.ecdfHist1`,
   not wired in here), NaN/inf data when `impute_missing_values = False`, the `np.nan in fit` test of step 6.
 -/
@@ -97,6 +98,8 @@ structure Cfg where
   iecdfMethod : IecdfMethod := .linear
   modeNpqm : NpqmMode := .normal
   riceOrWeibull : Bool := false
+  scaleByAnnualCycle : Bool := false
+  windowLengthAnnualCycle : Nat := 31
 deriving Repr
 
 namespace Cfg
@@ -454,5 +457,157 @@ def winFn (c : Cfg) (fam : IsiFamily) (orc : List Nat → Oracles) (drw : List N
     (yearsO yearsH yearsF : List Int) : Skeleton.WinFn Rat :=
   fun obs H F iO iH iF =>
     applyOnWindow c fam (orc iF) (drw iF) obs H F (Skeleton.take yearsO iO) (Skeleton.take yearsH iH) (Skeleton.take yearsF iF)
+
+/-! ### Step 2: imputation of missing values (`none` = `nan` or `±inf`) -/
+
+/-- `scipy.interpolate.interp1d(xs, ys, fill_value="extrapolate")(x)` (linear; `xs` increasing, at least two knots):
+    the segment is `searchsorted(xs, x).clip(1, n−1)`, i.e. the first / last segment extrapolates -/
+def interp1dExtrap (xs ys : List Rat) (x : Rat) : Rat :=
+  let k := (xs.filter (fun v => decide (v < x))).length
+  let hi := max 1 (min k (xs.length - 1))
+  let lo := hi - 1
+  let slope := (ys.getD hi 0 - ys.getD lo 0) / (xs.getD hi 0 - xs.getD lo 0)
+  slope * (x - xs.getD lo 0) + ys.getD lo 0
+
+/-- `_step2_impute_values(x)`; `u` = the values `np.random.random(size = number of missing values)` returned
+    (not requested when fewer than two values are valid) -/
+def step2Impute (c : Cfg) (x : List (Option Rat)) (u : List Rat) : Except String (List Rat) :=
+  let valid := x.filterMap id
+  let maskInv := x.map (fun v => v.isNone)
+  let base := x.map (fun v => v.getD 0)
+  match valid with
+  | [] => .error "ValueError"
+  | [v] => .ok (Py.setWhere base maskInv v)
+  | _ =>
+    let idxInv := Py.whereTrue maskInv
+    if u.length ≠ idxInv.length then .error "unmodelled:DrawsLength" else
+    let sampled := iecdf c.iecdfMethod valid u
+    let idxValid := (Py.whereTrue (maskInv.map (fun b => !b))).map (fun (i : Nat) => (i : Rat))
+    let backsort := (rankOf valid).map (fun (i : Nat) => (i : Rat))
+    let interpolated := idxInv.map (fun (i : Nat) => interp1dExtrap idxValid backsort (i : Rat))
+    .ok (IsimipFreq.fillWhere base maskInv (takeIdx (sortQ sampled) (rankOf interpolated)))
+
+/-- all values present -/
+def allSome (x : List (Option Rat)) : Except String (List Rat) :=
+  x.mapM (fun v => match v with | some q => .ok q | none => .error "unmodelled:MissingValues")
+
+/-- `step2` -/
+def step2 (c : Cfg) (d : Draws) (obs H F : List (Option Rat)) : Except String (List Rat × List Rat × List Rat) :=
+  if c.imputeMissingValues then do
+    let o ← step2Impute c obs d.impO
+    let h ← step2Impute c H d.impH
+    let f ← step2Impute c F d.impF
+    pure (o, h, f)
+  else do
+    let o ← allSome obs
+    let h ← allSome H
+    let f ← allSome F
+    pure (o, h, f)
+
+/-- `_apply_on_window` including step 2 (data with missing values) -/
+def applyOnWindowImpute (c : Cfg) (fam : IsiFamily) (o : Oracles) (d : Draws)
+    (obs H F : List (Option Rat)) (yO yH yF : List Int) : Except String (List Rat) := do
+  let (o2, h2, f2) ← step2 c d obs H F
+  applyOnWindow c fam o d o2 h2 f2 yO yH yF
+
+/-! ### Step 1 / step 8: scaling by the annual cycle of upper bounds (outside the window loop) -/
+
+/-- `scipy.ndimage.maximum_filter1d(a, size, mode="wrap")`: window `[i − size/2, i − size/2 + size − 1]`, indices mod `n` -/
+def maximumFilterWrap (size : Nat) (a : List Rat) : List Rat :=
+  let n := a.length
+  (List.range n).map (fun (i : Nat) =>
+    maxQ ((List.range size).map (fun (k : Nat) => a.getD ((((i : Int) - ((size / 2 : Nat) : Int) + (k : Int)) % (n : Int)).toNat) 0)))
+
+/-- `scipy.ndimage.uniform_filter1d(a, size, mode="wrap")` -/
+def uniformFilterWrap (size : Nat) (a : List Rat) : List Rat :=
+  let n := a.length
+  (List.range n).map (fun (i : Nat) =>
+    ((List.range size).map (fun (k : Nat) => a.getD ((((i : Int) - ((size / 2 : Nat) : Int) + (k : Int)) % (n : Int)).toNat) 0)).sum / (size : Rat))
+
+/-- `_step1_get_annual_cycle_of_upper_bounds(vals, days_of_year)`: running mean of the running maximum of the
+    multi-year daily maxima; returns `(cycle, unique days of year)` -/
+def annualCycle (c : Cfg) (vals : List Rat) (doy : List Int) : List Rat × List Int :=
+  let ud := uniqueYears doy
+  let maxima := ud.map (fun d => maxQ (Py.selectWhere vals (doy.map (fun t => decide (t = d)))))
+  (uniformFilterWrap c.windowLengthAnnualCycle (maximumFilterWrap c.windowLengthAnnualCycle maxima), ud)
+
+/-- lookup of a per-day-of-year value: `arr[doy − 1]` when all 366 days are present, else `arr[days == doy][0]`
+    (`IndexError` when the day is absent) -/
+def lookupDay (arr : List Rat) (days : List Int) (d : Int) : Except String Rat :=
+  if days.length = 366 then
+    match arr[(d - 1).toNat]? with
+    | some v => if d ≥ 1 then .ok v else .error "unmodelled:NegativeIndex"
+    | none => .error "IndexError"
+  else
+    match arr[days.idxOf d]? with
+    | some v => if days.contains d then .ok v else .error "IndexError"
+    | none => .error "IndexError"
+
+/-- `_step1_scale_by_annual_cycle_of_upper_bounds` -/
+def scaleByCycle (vals : List Rat) (doy : List Int) (cycle : List Rat) (days : List Int) : Except String (List Rat) :=
+  let scaling := cycle.map (fun v => if v = 0 then 1 else 1 / v)
+  (vals.zip doy).mapM (fun p => (lookupDay scaling days p.2).map (fun s => p.1 * s))
+
+/-- `_step1_calculate_debiased_annual_cycle_of_upper_bounds` -/
+def debiasedCycle (cO : List Rat) (dO : List Int) (cH : List Rat) (dH : List Int) (cF : List Rat) (dF : List Int) : List Rat :=
+  if dH = dF ∧ dO = dF then
+    List.zipWith (fun o hf =>
+      let factor := if hf.1 ≠ 0 then hf.2 / hf.1 else 1
+      o * max (1 / 10) (min 10 factor)) cO (cH.zip cF)
+  else
+    (cF.zip dF).map (fun p =>
+      if dH.contains p.2 ∧ dO.contains p.2 then
+        let vH := cH.getD (dH.idxOf p.2) 0
+        let vO := cO.getD (dO.idxOf p.2) 0
+        if vH ≠ 0 then vO * p.1 / vH else vO
+      else p.1)
+
+/-- `step1`: the three scaled series and the debiased annual cycle (`none` when the scaling is off) -/
+def step1 (c : Cfg) (obs H F : List Rat) (doyO doyH doyF : List Int) :
+    Except String (List Rat × List Rat × List Rat × Option (List Rat)) :=
+  if c.scaleByAnnualCycle then do
+    let (cO, dO) := annualCycle c obs doyO
+    let (cH, dH) := annualCycle c H doyH
+    let (cF, dF) := annualCycle c F doyF
+    let o ← scaleByCycle obs doyO cO dO
+    let h ← scaleByCycle H doyH cH dH
+    let f ← scaleByCycle F doyF cF dF
+    pure (o, h, f, some (debiasedCycle cO dO cH dH cF dF))
+  else pure (obs, H, F, none)
+
+/-- `step8` (`_step8_rescale_by_annual_cycle_of_upper_bounds` with `np.unique(days_of_year_cm_future)`) -/
+def step8 (c : Cfg) (F : List Rat) (cycle : Option (List Rat)) (doyF : List Int) : Except String (List Rat) :=
+  if c.scaleByAnnualCycle then
+    match cycle with
+    | some cyc => (F.zip doyF).mapM (fun p => (lookupDay cyc (uniqueYears doyF) p.2).map (fun s => p.1 * s))
+    | none => .error "TypeError"
+  else .ok F
+
+/-! ### `apply_location`: step 1, the window loop of `Model/Skeleton.lean`, step 8 -/
+
+/-- step 8 on a result buffer (`none` = never written stays `none`) -/
+def step8Buffer (c : Cfg) (out : List (Option Rat)) (cycle : Option (List Rat)) (doyF : List Int) :
+    Except String (List (Option Rat)) :=
+  if c.scaleByAnnualCycle then
+    match cycle with
+    | some cyc => (out.zip doyF).mapM (fun p => match p.1 with
+        | some v => (lookupDay cyc (uniqueYears doyF) p.2).map (fun s => some (v * s))
+        | none => .ok none)
+    | none => .error "TypeError"
+  else .ok out
+
+/-- `ISIMIP.apply_location` in running-window mode (`L`, `S` normalised window length / step) -/
+def applyLocationRW (c : Cfg) (fam : IsiFamily) (orc : List Nat → Oracles) (drw : List Nat → Draws) (L S : Int)
+    (doyO doyH doyF yearsO yearsH yearsF : List Int) (obs H F : List Rat) : Except String (List (Option Rat)) := do
+  let (o1, h1, f1, cyc) ← step1 c obs H F doyO doyH doyF
+  let out ← Skeleton.applyLocationRW (winFn c fam orc drw yearsO yearsH yearsF) L S doyO doyH doyF o1 h1 f1
+  step8Buffer c out cyc doyF
+
+/-- `ISIMIP.apply_location` in month mode -/
+def applyLocationMonths (c : Cfg) (fam : IsiFamily) (orc : List Nat → Oracles) (drw : List Nat → Draws)
+    (mO mH mF doyO doyH doyF yearsO yearsH yearsF : List Int) (obs H F : List Rat) : Except String (List (Option Rat)) := do
+  let (o1, h1, f1, cyc) ← step1 c obs H F doyO doyH doyF
+  let out ← Skeleton.applyLocationMonths (winFn c fam orc drw yearsO yearsH yearsF) mO mH mF o1 h1 f1
+  step8Buffer c out cyc doyF
 
 end Model.Isimip
